@@ -290,8 +290,9 @@ def plan(tier: str):
         for s in starts:
             jobs.append((s, 1, "full", None))
             jobs.append((s, 3, "small", None))
-        for s in ["lab22", "lab3", "one11", "zeros22"]:
-            jobs.append((s, 2, "full", None))
+        # depth 2 over the medium alphabet (2 M states, 1 M histories per start): every 25th history is replayed
+        for s in ["lab22", "zeros22"]:
+            jobs.append((s, 2, "medium", None))
         for s in ["lab22", "lab222"]:
             jobs.append((s, 4, "small", None))
         for s in starts:
@@ -308,15 +309,15 @@ def main(tier: str) -> int:
     jobs = []
     for start, D, alpha, nsim in plan(tier):
         j = dict(module="ArrayHistory_Gen", cfg_text=cfg(start, D, alpha, laws=(nsim is None and D <= 3)),
-                 timeout=3400)
+                 timeout=3400, workers=(4 if alpha == "medium" and nsim is None else 1))
         if nsim:
             j.update(simulate=f"num={nsim}", depth=D + 2, seed=core.seed() + 1)
         jobs.append(j)
     results = tla.run_many(jobs)
     behaviours = []
-    for r in results:
+    for (start, D, alpha, nsim), r in zip(plan(tier), results):
         out.add_tlc(r)
-        behaviours += r.json
+        behaviours += r.json[::25] if (alpha == "medium" and nsim is None) else r.json
     out.notes["histories"] = len(behaviours)
     out.notes["plan"] = [list(p) for p in plan(tier)]
 
